@@ -508,3 +508,69 @@ func parseStateBody(body string, want map[string]bool) (State, error) {
 
 // ParseStateBody is exported for simulation-file and error-trace readers.
 func ParseStateBody(body string) (State, error) { return parseStateBody(body, nil) }
+
+// SimStep is one step of a TLC -simulate behaviour file.
+type SimStep struct {
+	Action string
+	Args   []string
+	State  State
+}
+
+// ReadSim parses a behaviour file written by `tlc -simulate file=...`.
+// If statesToo is false only the action headers are parsed (fast).
+func ReadSim(r io.Reader, statesToo bool) ([]SimStep, error) {
+	sc := bufio.NewScanner(r)
+	sc.Buffer(make([]byte, 1<<20), 1<<28)
+	var steps []SimStep
+	var body strings.Builder
+	inState := false
+	flush := func() error {
+		if inState && statesToo && len(steps) > 0 {
+			st, err := parseStateBody(body.String(), nil)
+			if err != nil {
+				return err
+			}
+			steps[len(steps)-1].State = st
+		}
+		body.Reset()
+		inState = false
+		return nil
+	}
+	for sc.Scan() {
+		line := sc.Text()
+		switch {
+		case strings.HasPrefix(line, "\\* <"):
+			if err := flush(); err != nil {
+				return nil, err
+			}
+			h := strings.TrimPrefix(line, "\\* <")
+			name := h
+			if i := strings.Index(h, " line "); i >= 0 {
+				name = h[:i]
+			}
+			var args []string
+			if i := strings.IndexByte(name, '('); i >= 0 && strings.HasSuffix(name, ")") {
+				for _, a := range strings.Split(name[i+1:len(name)-1], ",") {
+					args = append(args, strings.TrimSpace(a))
+				}
+				name = name[:i]
+			}
+			steps = append(steps, SimStep{Action: name, Args: args})
+		case strings.HasPrefix(line, "STATE_"):
+			inState = true
+		case strings.HasPrefix(line, "====="):
+			if err := flush(); err != nil {
+				return nil, err
+			}
+		default:
+			if inState {
+				body.WriteString(line)
+				body.WriteByte('\n')
+			}
+		}
+	}
+	if err := flush(); err != nil {
+		return nil, err
+	}
+	return steps, sc.Err()
+}
